@@ -158,6 +158,19 @@ def apply_call(g, call):
         from vf.statehist import other_builder_activity
         other_builder_activity(call.get("cfg"))
         return None
+    if op == "install_power_hook":
+        # a move hook that derives the tool power from the feed (S = F/20) and
+        # returns a NEW mapping: with tool-power limits a fast move is rejected
+        # because of a word the caller never wrote
+        from gscrib.params import ParamsDict
+
+        def power_from_feed(origin, target, params, state):
+            new = ParamsDict(params)
+            if new.get("F") is not None:
+                new["S"] = new["F"] / 20.0
+            return new
+        g.add_hook(power_from_feed)
+        return None
     if op == "aborted_path":
         return aborted_path(g, call)
     if op == "box_excluding_position":
